@@ -84,6 +84,12 @@ PassAny(X(_, _)) ==
             /\ ~PreOk(Quad(active, d).endos, pf)
             /\ \E j \in (i+1)..Len(p), e \in Boxes :
                   LET a == << <<p[i], d>>, <<p[j], e>> >> IN Pass(a, pf) /\ X(a, pf)
+     \* two armed acts, the first of which is taken: the second one (of a box further down the pile that is being left) is
+     \* not even looked at - one transition per pass
+     \/ \E i \in DOMAIN p, d \in Boxes :
+            /\ PreOk(Quad(active, d).endos, {})
+            /\ \E j \in (i+1)..Len(p), e \in Boxes \ {d} :
+                  LET a == << <<p[i], d>>, <<p[j], e>> >> IN Pass(a, {}) /\ X(a, {})
 Next == (\E f \in Boxes, pf \in PF : Start(f, pf)) \/ PassAny(LAMBDA a, pf : TRUE) \/ End
 Spec == Init /\ [][Next]_vars
 -----------------------------------------------------------------------------
